@@ -240,7 +240,7 @@ def require_tlc_ok(r, what):
         raise Infra('%s: TLC failed (rc=%s): %s\n%s' % (what, r.rc, r.errors[:3], r.out[-3000:]))
 
 
-def validate_trace(module, cfg, path, *, chunk=15000, timeout=900, par=8, workdir=None, split_on=None):
+def validate_trace(module, cfg, path, *, chunk=15000, timeout=900, par=8, workdir=None, split_on=None, adaptive=False):
     """Trace validation: TLC evaluates the named invariants of <module> on every line of the ndjson file.
     Returns (violations, stats): violations = [(invariant, line_index0, line_obj)], stats = dict(events, tlc_wall)."""
     from concurrent.futures import ThreadPoolExecutor
@@ -252,7 +252,9 @@ def validate_trace(module, cfg, path, *, chunk=15000, timeout=900, par=8, workdi
     d = scratch('verif-t-')
     jobs = []
     start, ci = 0, 0
-    chunk = min(chunk, max(500, -(-n // max(1, par))))     # spread a mid-sized trace over the available cores
+    if adaptive or split_on:
+        # spread a mid-sized trace over the available cores (only where cutting is safe: per-line judgement, or cuts at sequence starts)
+        chunk = min(chunk, max(500, -(-n // max(1, par))))
     while start < n:
         end = min(n, start + chunk)
         if split_on:
